@@ -35,7 +35,41 @@ func CoordFinite() *rapid.Generator[float64] {
 		rapid.SampledFrom(special),
 		rapid.Map(rapid.IntRange(-1000000, 1000000), func(i int) float64 { return float64(i) / 1000 }),
 		rapid.Float64Range(-1e6, 1e6),
+		CoordBoundary(),
 	)
+}
+
+// CoordBoundary draws finite values at and next to the thresholds where number formatters and integer conversions
+// change behaviour: +-2^k (k = -60..1023) and its float neighbours, +-(2^k +- 1) while exact, m*10^e for small
+// integer m (whole values of every magnitude, including 2^53..1e22) and their float neighbours.
+func CoordBoundary() *rapid.Generator[float64] {
+	return rapid.Custom(func(t *rapid.T) float64 {
+		var v float64
+		if rapid.Bool().Draw(t, "pow2") {
+			k := rapid.IntRange(-60, 1023).Draw(t, "k")
+			v = math.Ldexp(1, k)
+			if k <= 62 && k >= 1 {
+				v += float64(rapid.IntRange(-1, 1).Draw(t, "d"))
+			}
+		} else {
+			m := rapid.IntRange(1, 9999).Draw(t, "m")
+			e := rapid.IntRange(-25, 40).Draw(t, "e")
+			v = float64(m) * math.Pow(10, float64(e))
+			if e >= 0 && e <= 22 {
+				v = math.Trunc(v) // a whole number
+			}
+		}
+		switch rapid.IntRange(0, 5).Draw(t, "nbr") {
+		case 0:
+			v = math.Nextafter(v, math.Inf(1))
+		case 1:
+			v = math.Nextafter(v, 0)
+		}
+		if rapid.Bool().Draw(t, "neg") {
+			v = -v
+		}
+		return v
+	})
 }
 
 // GeomOpts steers GenGJ.
